@@ -130,7 +130,7 @@ def main():
             if r is None: continue
             out.append(r)
             if r["suite"] == "passed": print("%-22s L%-4d %-5s %-9s %s" % (r["file"], r["site"][1], r["site"][0], "DETECTED" if r["detected"] else "survived", r["line"])); sys.stdout.flush()
-    os.makedirs(os.path.dirname(a.out), exist_ok=True); json.dump(out, open(a.out, "w"), indent=1)
+    os.makedirs(os.path.dirname(os.path.abspath(a.out)), exist_ok=True); json.dump(out, open(a.out, "w"), indent=1)
     surv = [r for r in out if r["suite"] == "passed"]
     print("total %d, killed by the suite %d, passing the suite %d: detected by the checks %d, surviving %d" % (len(out), len(out) - len(surv), len(surv), sum(r["detected"] for r in surv), sum(not r["detected"] for r in surv)))
 if __name__ == "__main__": main()
